@@ -1133,3 +1133,43 @@ def run_pcase(case):
     if bad:
         return ON("p", [ON("interference", [OZ(n) for n in bad]), OZ(total)])
     return ON("p", [ON("ok"), OZ(total)])
+
+
+# ----------------------------------------------------------------------------- replays of recorded findings
+def run_fcase(case):
+    k = case['finding']
+    if k == 'F1':
+        # the budget of a next() is spent on any long stretch without a result, not only on cycles
+        n = case.get('n', 400000)
+        doc = [0] * n + [{'a': 1}]
+        try:
+            r = [m.path_as_str for m in find_matches(path[wc].a, doc)]
+            return ON("f", [OS("results:%d" % len(r))])
+        except Exception as e:  # noqa
+            return ON("f", [OS(type(e).__name__)])
+    if k == 'F2':
+        one = {'a': 0}
+        two = {'x': one}
+        one['x'] = two
+        try:
+            get(path[has(path.rec.a == 1)], one)
+            return ON("f", [OS("returned")])
+        except Exception as e:  # noqa
+            return ON("f", [OS(type(e).__name__)])
+    if k == 'F3':
+        one = {'a': 0}
+        two = {'x': one}
+        one['x'] = two
+        sink = []
+        old_limit = sys.getrecursionlimit()
+        sys.setrecursionlimit(1000)          # the interpreter's default, which the finding is about
+        try:
+            get(path.rec.zzz, one, trace=log_to(sink.append))
+            return ON("f", [OS("returned")])
+        except RecursionError:
+            return ON("f", [OS("RecursionError")])
+        except Exception as e:  # noqa
+            return ON("f", [OS(type(e).__name__)])
+        finally:
+            sys.setrecursionlimit(old_limit)
+    raise ValueError(k)
